@@ -173,7 +173,7 @@ package dig
 //@   ensures[C20:runtime-is-that-duration] ranWithCb ==> $cbInfo[at(BuildList_1, $ncb)].Runtime == $evDur[at(BuildList_1, $ev) + 2]
 //@   site call (dig.paramList).BuildList #1: assert[C08:args-built-in-given-scope] $arg0 == c
 //@   site call (dig.paramList).BuildList #1: assert[C01:builds-own-params] $recv == n.paramList
-//@   site call (*dig.stagingContainerWriter).Commit #1: assert[C08:commit-home] is($arg0, ptr(Scope)) && as($arg0, ptr(Scope)) == n.s
+//@   site call (*dig.stagingContainerWriter).Commit #1: assert[C08:commit-home,C01:commit-home] is($arg0, ptr(Scope)) && as($arg0, ptr(Scope)) == n.s
 //@   site call (dig.resultList).ExtractList #1: assert[C07:extract-into-staging] is($arg0, ptr(stagingContainerWriter)) && fresh(as($arg0, ptr(stagingContainerWriter))) && !$arg1
 //@   site call (dig.resultList).ExtractList #1: assert[C01:extracts-own-results] $recv == n.resultList && $arg2 == ret(invokerFn_1, 0)
 
